@@ -1198,7 +1198,16 @@ impl<T: Config> P2PSession<T> {
                 for remote in self.player_reg.remotes.values_mut() {
                     let mut checked_frames = Vec::new();
 
-                    for (&remote_frame, &remote_checksum) in &remote.pending_checksums {
+                    // compare in ascending frame order, so that the order of the resulting events
+                    // does not depend on the hash map's iteration order
+                    let mut pending: Vec<(Frame, u128)> = remote
+                        .pending_checksums
+                        .iter()
+                        .map(|(&frame, &checksum)| (frame, checksum))
+                        .collect();
+                    pending.sort_unstable_by_key(|&(frame, _)| frame);
+
+                    for (remote_frame, remote_checksum) in pending {
                         if remote_frame >= self.sync_layer.last_confirmed_frame() {
                             // we're still waiting for inputs for this frame
                             continue;
